@@ -69,6 +69,7 @@ type runRec struct {
 	V     variant
 	Hits  []int
 	Total int
+	Err   string `json:",omitempty"` // the search failed with this error
 }
 
 func (r runRec) json() map[string]any {
@@ -215,7 +216,10 @@ func (ct *corpusT) runCase(q *qs.Node) (*caseT, error) {
 	for _, v := range variants() {
 		ids, total, err := doSearch(ct.idx[v.Eng], bq, v, len(ct.live)+5)
 		if err != nil {
-			return nil, fmt.Errorf("search %s on %s: %v", v, mustJSON(q.JSON()), err)
+			// a query that FAILS on this engine/variant did not return its hit set: recorded
+			// as an empty answer with Total -1, which the judge rejects (TotalOK)
+			cs.Runs = append(cs.Runs, runRec{V: v, Hits: []int{}, Total: -1, Err: err.Error()})
+			continue
 		}
 		cs.Runs = append(cs.Runs, runRec{V: v, Hits: ids, Total: total})
 	}
@@ -919,7 +923,9 @@ func engineA(c *core.Ctx) error {
 	// the one-segment layout is built by a forced merge on disk: the segment
 	// zap writes 1-hit postings into
 	srcs := []caseSrc{{"MCSearchers_c02_cases_q.cfg", l22, mem}, {"MCSearchers_c02_cases_deep_q.cfg", l21, mem},
-		{"MCSearchers_c02_cases_m.cfg", l4, []string{qs.EngScorchMerged}}}
+		{"MCSearchers_c02_cases_m.cfg", l4, []string{qs.EngScorchMerged}},
+		// a force-merged first segment followed by a fresh one (per-segment 1-hit state)
+		{"MCSearchers_c02_cases_q.cfg", l22, []string{qs.EngScorchMerged}}}
 	if c.Thorough() {
 		srcs[0].cfg = "MCSearchers_c02_cases_t.cfg"
 	}
